@@ -50,6 +50,7 @@ def build(u):
     u.emit(T, 'struct Structure', pub_fields=True)
     u.include('spec/u_sym_spec.rs', kind='spec')
     u.include('spec/u_typst_spec.rs', kind='spec')
+    u.include('spec/u_typas_spec.rs', kind='spec')
     u.include('prelude/typst_helpers.rs')
     u.include('spec/u_typref_spec.rs', kind='spec')
     u.emit(E, 'impl From<Error> for Poison')
